@@ -45,6 +45,10 @@ type ConcProg struct {
 	Seg   int64   `json:"seg"`
 	// NoList drops the list append from the writers (Merge duplicates list elements: recorded finding c15-merge-list-duplication)
 	NoList bool `json:"nolist,omitempty"`
+	// Slow > 0 (backup programs): the database is first filled with Slow sealed 4 MiB segments, so that the copy
+	// takes milliseconds, and for every Backup a "late writer" starts a write transaction as soon as it sees the
+	// first copied file in the destination - i.e. provably after the backup's copy began. Its write must not be in the copy.
+	Slow int `json:"slow,omitempty"`
 }
 
 var concKeys = []string{"k1", "k2", "k3", "k4"}
@@ -100,6 +104,10 @@ func genConcProg(maxG int, modes []int, merge, backup bool) *rapid.Generator[Cas
 		if merge {
 			p.Gs = append(p.Gs, ConcG{DB: 0, Kind: "merge", N: rapid.IntRange(1, 4).Draw(t, "nmerge")})
 		}
+		if backup && rapid.IntRange(0, 7).Draw(t, "slowcopy") == 3 {
+			p.Slow = rapid.IntRange(2, 5).Draw(t, "slowsegs")
+			c.Cfg.Seg = 4 << 20
+		}
 		if backup {
 			nb := rapid.IntRange(1, 2).Draw(t, "nbackup")
 			for i := 0; i < nb; i++ {
@@ -131,6 +139,9 @@ type concRec struct {
 	Kind     string // "", backup
 	Dir      string
 	Fail     string // the transaction was meant to fail (it must not commit)
+	ZCur     int    // reader in KeyVal mode: score of the sorted-set member "cur" (re-scored by every writer), 0 absent, -1 not read
+	ZCur2    int
+	LateFor  string // late writer: invoked after a copied file was seen in this backup destination
 }
 
 func atoi(b []byte) int {
@@ -197,6 +208,15 @@ func readList(tx *nutsdb.Tx) []int {
 	return out
 }
 
+// readZCur returns the score of the member "cur", which every writer re-scores to its version.
+func readZCur(tx *nutsdb.Tx) int {
+	n, err := tx.ZGetByKey("z", []byte("cur"))
+	if err != nil || n == nil {
+		return 0
+	}
+	return int(n.Score())
+}
+
 func readSet(tx *nutsdb.Tx) []int {
 	l, err := tx.SMembers("s", []byte("set"))
 	if err != nil {
@@ -232,6 +252,95 @@ func runConc(c Case, dirs []string, dbs []*nutsdb.DB, backupRoot string) concRes
 		mu.Unlock()
 	}
 	var progress int64
+	doTx := func(gi, i, dbi int, t ConcTx) concRec {
+		db := dbs[dbi]
+		r := concRec{G: gi, I: i, DB: dbi, W: t.W, Fail: t.Fail, ZCur: -1, ZCur2: -1}
+		body := func(tx *nutsdb.Tx) error {
+			if t.W {
+				v, _ := readVer(tx)
+				nv := v + 1
+				s := []byte(strconv.Itoa(nv))
+				if err := tx.Put("v", []byte("ver"), s, 0); err != nil {
+					return err
+				}
+				for _, k := range t.Keys {
+					if err := tx.Put("d", []byte(k), s, 0); err != nil {
+						return err
+					}
+				}
+				if structs {
+					if !p.NoList {
+						if err := tx.RPush("l", []byte("log"), s); err != nil {
+							return err
+						}
+					}
+					if err := tx.SAdd("s", []byte("set"), s); err != nil {
+						return err
+					}
+					if err := tx.ZAdd("z", s, float64(nv), s); err != nil {
+						return err
+					}
+					// one member whose score is raised by every writer: a record replayed or rewritten out of order shows
+					if err := tx.ZAdd("z", []byte("cur"), float64(nv), s); err != nil {
+						return err
+					}
+				}
+				r.Ver = nv
+				r.Vals = map[string]int{}
+				for _, k := range t.Keys {
+					r.Vals[k] = nv
+				}
+				switch t.Fail {
+				case "big":
+					if err := tx.Put("d", []byte("big"), make([]byte, c.Cfg.Seg+1), 0); err != nil {
+						return err
+					}
+				case "fnerr":
+					return errFn
+				}
+				return nil
+			}
+			r.Ver, _ = readVer(tx)
+			r.Vals = readKeys(tx, t.Keys)
+			r.Scan, r.Scan2 = readScans(tx)
+			if structs {
+				r.List = readList(tx)
+				r.Set = readSet(tx)
+				r.ZCur = readZCur(tx)
+			}
+			runtime.Gosched()
+			r.Ver2, _ = readVer(tx)
+			r.Vals2 = readKeys(tx, t.Keys)
+			if structs {
+				r.List2 = readList(tx)
+				r.Set2 = readSet(tx)
+				r.ZCur2 = readZCur(tx)
+			}
+			return nil
+		}
+		r.Inv = time.Since(start)
+		var err error
+		if t.Manual {
+			var tx *nutsdb.Tx
+			tx, err = db.Begin(t.W)
+			if err == nil {
+				if err = body(tx); err != nil {
+					_ = tx.Rollback()
+				} else if err = tx.Commit(); err != nil {
+					_ = tx.Rollback()
+				}
+			}
+		} else if t.W {
+			err = db.Update(body)
+		} else {
+			err = db.View(body)
+		}
+		r.Ret = time.Since(start)
+		if err != nil {
+			r.Err = err.Error()
+		}
+		return r
+	}
 	for gi, g := range p.Gs {
 		wg.Add(1)
 		go func(gi int, g ConcG) {
@@ -263,94 +372,35 @@ func runConc(c Case, dirs []string, dbs []*nutsdb.DB, backupRoot string) concRes
 					runtime.Gosched()
 				}
 				dir := fmt.Sprintf("%s/bk%d", backupRoot, gi)
-				r := concRec{G: gi, DB: g.DB, Kind: "backup", Dir: dir, Inv: time.Since(start)}
+				var copyDone int32
+				if p.Slow > 0 {
+					wg.Add(1)
+					go func() {
+						defer wg.Done()
+						// wait until a copied data file shows up in the destination: the copy (hence the backup's
+						// read transaction) has begun; no wall-clock reasoning is involved in the verdict
+						for atomic.LoadInt32(&copyDone) == 0 {
+							if _, err := os.Stat(dir + "/0.dat"); err == nil {
+								lr := doTx(1000+gi, 0, g.DB, ConcTx{W: true, Keys: []string{"k1"}})
+								lr.LateFor = dir
+								add(lr)
+								return
+							}
+							runtime.Gosched()
+						}
+					}()
+				}
+				r := concRec{G: gi, DB: g.DB, Kind: "backup", Dir: dir, Inv: time.Since(start), ZCur: -1, ZCur2: -1}
 				if err := db.Backup(dir); err != nil {
 					r.Err = err.Error()
 				}
 				r.Ret = time.Since(start)
+				atomic.StoreInt32(&copyDone, 1)
 				add(r)
 				return
 			}
 			for i, t := range g.Txs {
-				r := concRec{G: gi, I: i, DB: g.DB, W: t.W, Fail: t.Fail}
-				body := func(tx *nutsdb.Tx) error {
-					if t.W {
-						v, _ := readVer(tx)
-						nv := v + 1
-						s := []byte(strconv.Itoa(nv))
-						if err := tx.Put("v", []byte("ver"), s, 0); err != nil {
-							return err
-						}
-						for _, k := range t.Keys {
-							if err := tx.Put("d", []byte(k), s, 0); err != nil {
-								return err
-							}
-						}
-						if structs {
-							if !p.NoList {
-								if err := tx.RPush("l", []byte("log"), s); err != nil {
-									return err
-								}
-							}
-							if err := tx.SAdd("s", []byte("set"), s); err != nil {
-								return err
-							}
-							if err := tx.ZAdd("z", s, float64(nv), s); err != nil {
-								return err
-							}
-						}
-						r.Ver = nv
-						r.Vals = map[string]int{}
-						for _, k := range t.Keys {
-							r.Vals[k] = nv
-						}
-						switch t.Fail {
-						case "big":
-							if err := tx.Put("d", []byte("big"), make([]byte, c.Cfg.Seg+1), 0); err != nil {
-								return err
-							}
-						case "fnerr":
-							return errFn
-						}
-						return nil
-					}
-					r.Ver, _ = readVer(tx)
-					r.Vals = readKeys(tx, t.Keys)
-					r.Scan, r.Scan2 = readScans(tx)
-					if structs {
-						r.List = readList(tx)
-						r.Set = readSet(tx)
-					}
-					runtime.Gosched()
-					r.Ver2, _ = readVer(tx)
-					r.Vals2 = readKeys(tx, t.Keys)
-					if structs {
-						r.List2 = readList(tx)
-						r.Set2 = readSet(tx)
-					}
-					return nil
-				}
-				r.Inv = time.Since(start)
-				var err error
-				if t.Manual {
-					var tx *nutsdb.Tx
-					tx, err = db.Begin(t.W)
-					if err == nil {
-						if err = body(tx); err != nil {
-							_ = tx.Rollback()
-						} else if err = tx.Commit(); err != nil {
-							_ = tx.Rollback()
-						}
-					}
-				} else if t.W {
-					err = db.Update(body)
-				} else {
-					err = db.View(body)
-				}
-				r.Ret = time.Since(start)
-				if err != nil {
-					r.Err = err.Error()
-				}
+				r := doTx(gi, i, g.DB, t)
 				add(r)
 				atomic.AddInt64(&progress, 1)
 			}
@@ -448,6 +498,9 @@ func checkConc(recs []concRec, db int, structs, noList bool, final map[string]in
 			}
 		}
 		if structs {
+			if z, ok := final["\x00zcur"]; ok && z != len(writers) {
+				return fmt.Errorf("final score of the sorted-set member re-scored by every writer is %d, %d write transactions committed", z, len(writers))
+			}
 			if len(finalSet) != len(writers) {
 				return fmt.Errorf("final stamp set has %d members, %d write transactions committed: %v", len(finalSet), len(writers), finalSet)
 			}
@@ -470,7 +523,7 @@ func checkConc(recs []concRec, db int, structs, noList bool, final map[string]in
 	}
 	for _, r := range readers {
 		if r.Kind != "backup" {
-			if r.Ver != r.Ver2 || fmt.Sprint(r.Vals) != fmt.Sprint(r.Vals2) || fmt.Sprint(r.List) != fmt.Sprint(r.List2) || fmt.Sprint(r.Set) != fmt.Sprint(r.Set2) {
+			if r.Ver != r.Ver2 || fmt.Sprint(r.Vals) != fmt.Sprint(r.Vals2) || fmt.Sprint(r.List) != fmt.Sprint(r.List2) || fmt.Sprint(r.Set) != fmt.Sprint(r.Set2) || r.ZCur != r.ZCur2 {
 				return fmt.Errorf("read-only transaction g%d/%d saw the state change: ver %d then %d, %v then %v, list %v then %v, set %v then %v", r.G, r.I, r.Ver, r.Ver2, r.Vals, r.Vals2, r.List, r.List2, r.Set, r.Set2)
 			}
 		}
@@ -490,6 +543,16 @@ func checkConc(recs []concRec, db int, structs, noList bool, final map[string]in
 					return fmt.Errorf("reader g%d/%d (%s) saw version %d but its scans show %s with stamp %d (RangeScan) / %d (PrefixScan), snapshot of version %d has %d", r.G, r.I, r.Kind, v, k, r.Scan[k], r.Scan2[k], v, want[k])
 				}
 			}
+		}
+		if r.Kind == "backup" {
+			for _, w := range writers {
+				if w.LateFor == r.Dir && v >= w.Ver {
+					return fmt.Errorf("the backup %s shows version %d, which includes the write transaction g%d (version %d) that was invoked only after a copied file had appeared in the destination: the copy is not the state at the start of the backup's read transaction", r.Dir, v, w.G, w.Ver)
+				}
+			}
+		}
+		if structs && r.ZCur >= 0 && r.ZCur != v {
+			return fmt.Errorf("reader g%d/%d (%s) saw version %d but the sorted-set member re-scored by every writer has score %d", r.G, r.I, r.Kind, v, r.ZCur)
 		}
 		if structs && r.Set != nil {
 			if len(r.Set) != v {
